@@ -2,7 +2,7 @@
 # apply each seeded change to /repo, run the check of its property (quick tier, mutants off), undo it;
 # records the VIOLATION keys in seeded/<id>/meta.json (detected_by) and seeded/<id>/detect.log
 cd /verif
-ids=${@:-$(ls seeded | grep '^C[0-9][0-9][bc]\?$')}
+ids=${@:-$(ls seeded | grep '^C[0-9][0-9][bcd]\?$')}
 for id in $ids; do
   if ! git -C /repo diff --quiet; then echo "/repo is dirty, refusing"; exit 3; fi
   if ! git -C /repo apply /verif/seeded/$id/patch.diff 2>/dev/null; then echo "$id PATCH-DOES-NOT-APPLY"; continue; fi
